@@ -455,6 +455,7 @@ def run(tier):
     rule_R8(res, prog)
     rule_R9(res, prog)
     rule_R10(res, prog)
+    rule_R11(res, prog)
     return res.finish()
 
 
@@ -1133,3 +1134,48 @@ def rule_R10(res, prog):
                                      (hmax or 0) + (K or 0) + 1 if K is not None and hmax is not None else "?"), file=fn.relfile, line=ln)
                 res.instance(rid, "psHkdfExpand:%s buf[%s] >= %s + %s + 1" % (ln, size, hmax, K), ok, finding=f_)
     res.floor(rid, 1)
+
+
+def rule_R11(res, prog):
+    """'uses ... uninitialised memory': psOcspParseResponse may succeed without writing its output structure (a response
+    without responseBytes), and every caller goes on to validate it and to free response.OCSPResponseCert.  Wherever a LOCAL
+    psOcspResponse_t is handed to it, the structure is cleared (memset to 0 / `= {0}`) on every path before the call."""
+    from sa import cfgutil as cu
+    rid = "C08.R11"
+    res.rule(rid, "a local psOcspResponse_t is cleared on every path before psOcspParseResponse fills it")
+    n = 0
+    for fn in sorted(prog.functions.values(), key=lambda f: f.qname):
+        if not fn.blocks or "/test/" in fn.relfile or not (fn.relfile.startswith("matrixssl/") or fn.relfile.startswith("crypto/")):
+            continue
+        sites = cu.find_sites(fn, lambda q: q.get("k") == "call" and q.get("fn") == "psOcspParseResponse")
+        for (bid, idx, ln, call) in sites:
+            out = strip(call["a"][-1]) if call.get("a") else None
+            if not (out is not None and out.get("k") == "un" and out["op"] == "&" and (strip(out["e"]) or {}).get("k") == "var" and
+                    strip(out["e"]).get("sc") == "l"):
+                continue
+            vid = strip(out["e"])["id"]
+            nm = strip(out["e"])["n"]
+            n += 1
+
+            def clears(x, vid=vid):
+                for m in walk(x):
+                    if m.get("k") == "call" and m.get("fn") in ("memset", "__builtin_memset", "__builtin___memset_chk") and m.get("a"):
+                        a0 = strip(m["a"][0])
+                        while a0 is not None and a0.get("k") == "cast":
+                            a0 = strip(a0["e"])
+                        v1 = strip(m["a"][1]) if len(m["a"]) > 1 else None
+                        if a0 is not None and a0.get("k") == "un" and a0["op"] == "&" and (strip(a0["e"]) or {}).get("id") == vid and \
+                                v1 is not None and v1.get("k") == "int" and v1["v"] == 0:
+                            return True
+                    if m.get("k") == "decl" and (m.get("var") or {}).get("id") == vid and "init" in m:
+                        return True
+                return False
+            esc = cu.escapes(fn, (fn.entry, None), clears, target_expr=lambda y, call=call: any(q is call for q in walk(y)))
+            f_ = None
+            if esc is not None:
+                f_ = Finding(PROP, rid, fn.name, "OCSP response structure not cleared before parsing",
+                             "%s:%s %s(): psOcspParseResponse(.., &%s) with %s not cleared on every path: for an OCSPResponse without "
+                             "responseBytes the parser succeeds without writing it, and the validation / psX509FreeCert(%s.OCSPResponseCert) "
+                             "that follow use uninitialised stack memory" % (fn.relfile, ln, fn.name, nm, nm, nm), file=fn.relfile, line=ln)
+            res.instance(rid, "%s:%s %s cleared before psOcspParseResponse" % (fn.name, ln, nm), esc is None, finding=f_)
+    res.floor(rid, 1 if prog.by_name.get("psOcspParseResponse") else 0)
